@@ -1958,7 +1958,12 @@ impl MachineState {
     ) -> Result<Stream, ParserError> {
         match stream.peek_char() {
             None => Ok(stream), // empty stream is handled gracefully by Lexer::eof
-            Some(Err(e)) => Err(ParserError::from(e)),
+            Some(Err(e)) => {
+                // the callers are consuming reads: bytes that are not
+                // UTF-8 are skipped along with the report.
+                stream.skip_bad_bytes(&e);
+                Err(ParserError::from(e))
+            }
             Some(Ok(c)) => {
                 if c == '\u{feff}' {
                     // skip UTF-8 BOM
